@@ -155,7 +155,7 @@ CLAIMED = {
                 'the heap invariant (done => spent, for every node) is kept by every request. Holds for every knowledge base, every goal and whatever unification returns. Partial correctness (a search need not terminate). '
                 'A bounded program-level oracle (labelled bounded, never counted) asks 26 queries to exhaustion and four times more, through next_solution() and solve().',
         'note': 'Trusted: the heap model of Rc<RefCell<..>> (T8: one heap; Rc::clone keeps identity; field access through a RefMut touches that field only; the unsafe raw-pointer writes of set_no_backtracking set cut flags only), rewrite rules R2, R7, R10, R15 (T4), derived Clone (T1), Verus+Z3 (T5). '
-                'ASSUMED contracts (not proved here): next_solution_bip (tests and clears more_solutions first), print_elapsed (one output event), Operator::split_head_tail / first operand of not(..), time(..) never Goal::Nil. make_solution_node, make_base_node, set_head_node, SolutionNode::new are proved in the unit. '
+                'ASSUMED (not proved here): the effect of the unsafe walk of set_no_backtracking (`walked`), next_solution_print / next_solution_print_list / print_elapsed (one output event, no node touched), Operator::split_head_tail / first operand of not(..), time(..) never Goal::Nil. next_solution_bip, make_solution_node, make_base_node, set_head_node, SolutionNode::new are proved in the unit. '
                 'unify / get_rule / get_head / get_body / key / get_var_id / set_var_id are abstract (arbitrary results). solve()/solve_all() mapping None to "No more." is read, not proved.',
         'technique': 'contract-based deductive verification (Verus) of extracted real code over a ghost heap model of the RefCell node graph',
         'design_ref': 'DESIGN.md 8.23',
@@ -166,7 +166,7 @@ CLAIMED = {
                 'no request changes the cut flag of any node above the call it works in (the caller and its other goals are unaffected). '
                 'What the cut itself does to the flags (SolutionNode::set_no_backtracking, unsafe raw-pointer walk) is ASSUMED at the heap level and checked by a bounded Kani harness on the real function (chains of up to 3 real nodes). '
                 'A bounded oracle compares the engine with a reference interpreter on 29 queries over a 45-clause program with cuts.',
-        'note': 'Trusted: heap model (T8), R15 (T4), Verus+Z3 (T5). ASSUMED: contract of next_solution_bip (the `!` arm calls set_no_backtracking; flags kept above the call; invariant kept), '
+        'note': 'Trusted: heap model (T8), R15 (T4), Verus+Z3 (T5). ASSUMED: the specification `walked` of the unsafe walk (flags the node, every node up the parent links, and the head node of each; nothing else) - from it next_solution_bip is PROVED to keep the invariant, to flag the call node and to leave every flag above the call alone (lemma_walk). '
                 'Kani 0.68/CBMC for the bounded harness. The reference interpreter adopts the documented semantics of the statement (no answer beyond the one being derived).',
         'technique': 'contract-based deductive verification (Verus) of extracted real code over a ghost heap model of the RefCell node graph + bounded Kani harness on the unsafe cut walk',
         'design_ref': 'DESIGN.md 8.24',
